@@ -107,6 +107,8 @@ func (h *H) beginOp(t *simrt.Task, ti, idx int, op Op) *OpResult {
 }
 
 // runOp executes one operation; returns false if the task must stop (abort).
+//
+//go:norace
 func (h *H) runOp(t *simrt.Task, ti, idx int, op Op) (cont bool) {
 	simrt.BeginOp()
 	res := h.beginOp(t, ti, idx, op)
@@ -167,6 +169,7 @@ func (h *H) endOp(t *simrt.Task, res *OpResult) {
 	h.curH[t.ID] = -1
 }
 
+//go:norace
 func (h *H) waitFor(cond func() bool) {
 	if cond() {
 		return
@@ -174,6 +177,7 @@ func (h *H) waitFor(cond func() bool) {
 	simrt.Block(siteWait, cond)
 }
 
+//go:norace
 func (h *H) handle(i int) *Handle {
 	if i < 0 || i >= int(h.nHandles.Load()) {
 		return nil
@@ -181,6 +185,7 @@ func (h *H) handle(i int) *Handle {
 	return h.slots[i].Load()
 }
 
+//go:norace
 func (h *H) publish(hd *Handle) int {
 	id := int(h.nHandles.Load())
 	if id >= maxHandles {
@@ -192,16 +197,19 @@ func (h *H) publish(hd *Handle) int {
 	return id
 }
 
+//go:norace
 func (h *H) pick(op Op) *Handle {
 	n := int(h.nHandles.Load())
 	return h.slots[op.HSel%n].Load()
 }
 
+//go:norace
 func (h *H) setErr(res *OpResult, err error) {
 	res.Err = err
 	res.Class, res.Classes = classify(err)
 }
 
+//go:norace
 func (h *H) doBuild(res *OpResult) {
 	c := godi.NewCollection()
 	h.coll = c
@@ -221,6 +229,7 @@ func (h *H) doBuild(res *OpResult) {
 	h.built.Store(1)
 }
 
+//go:norace
 func (h *H) recResult(res *OpResult, v any) {
 	if v == nil {
 		res.IsNilRes = true
@@ -238,6 +247,7 @@ func (h *H) recResult(res *OpResult, v any) {
 	res.Builtin = v
 }
 
+//go:norace
 func (h *H) doOp(t *simrt.Task, res *OpResult, hd *Handle, op Op) {
 	p := hd.P()
 	switch op.Kind {
